@@ -149,12 +149,12 @@ PROPS = {
             {"sub": "cache-race", "quick": {"cases": 1000}, "thorough": {"cases": 60000}, "timeout": 3000},
             e2e("lifecycle,mixed,code", 90, 3000, label="bundle"),
         ],
-        "rule": "cache-history: random histories over 4 accounts x 3 slots x 4 codes on one ParallelState and one revm State (same backing store): commits of realistic finalized journal states (selfdestruct incl. created+destroyed, CREATE over absent / destroyed / balance-only accounts with constructor storage, EIP-161 empty touch, updates with SSTOREs whose original value is the current one, code changes), increment_balances (non-zero amounts, distinct addresses: the documented precondition), drain_balances, merge_transitions (Reverts / PlainState), take_bundle or parallel_take_bundle per block or accumulated over 1-3 consecutive blocks on the same state; after EVERY operation the pending transitions are compared (canonical rendering), after every third and after every block all accounts, codes and slots readable through the database interface, after every extraction state, contracts, reverts; cache-race (account cases, every fourth): the account is not cached; 1-3 reader threads load it through the worker view (database fetch, hook point cache_fill_basic, publication of the fetched entry) while 1-3 ordered commits change it, under random / PCT / sticky schedules and a directed one (reader held between fetch and publication until all commits are applied); every reader must return the value of some committed prefix, and afterwards all reads must equal revm State's (Lean: account_fill_coherent over all interleavings of publish / commit; blind_publish_violates); cache-race (storage cases): 1-3 reader threads (cache-filling storage_ref through the worker view) against 1-3 ordered commits (destroy / create / empty-touch / update) of one account under random / PCT / sticky controller schedules and the directed F1 schedule (reader held between database fetch and cache insert while the account is destroyed); afterwards all reads must equal revm State's after the same commits, and the totally ordered hook-event trace (cache_read_begin, cache_fill_storage with the status the reader saw, cache_commit_begin, cache_set_status, cache_clear_storage, cache_write_slots) is replayed through the PROVEN Cache.step (one model state per slot): every event must be enabled, the values returned to readers and the values served at the end must equal the model's, and the model's served values its logical ones; e2e (bundle): " + E2E_RULE,
+        "rule": "cache-history: random histories over 4 accounts x 3 slots x 4 codes on one ParallelState and one revm State (same backing store): commits of realistic finalized journal states (selfdestruct incl. created+destroyed, CREATE over absent / destroyed / balance-only accounts with constructor storage, EIP-161 empty touch, updates with SSTOREs whose original value is the current one, code changes), increment_balances (non-zero amounts, distinct addresses: the documented precondition), drain_balances, merge_transitions (Reverts / PlainState), take_bundle or parallel_take_bundle per block or accumulated over 1-3 consecutive blocks on the same state; after EVERY operation the pending transitions are compared (canonical rendering) and the cache entries (status, info) of the touched accounts on BOTH sides are recorded; at the end every account's operation sequence (basic, read, revm-side peeks, sd / create / touch / change with the changed slots, inc, drain) with the observed infos, slot values, drained amounts and cache entries is replayed through the Lean machines G.step (grevm) and S.step (revm) of Model/AcctState.lean - the definitions acct_machine_refines_revm is about: every observation must equal the model's (three-way: real ParallelState / real revm State / Lean); after every third and after every block all accounts, codes and slots readable through the database interface, after every extraction state, contracts, reverts; cache-race (account cases, every fourth): the account is not cached; 1-3 reader threads load it through the worker view (database fetch, hook point cache_fill_basic, publication of the fetched entry) while 1-3 ordered commits change it, under random / PCT / sticky schedules and a directed one (reader held between fetch and publication until all commits are applied); every reader must return the value of some committed prefix, and afterwards all reads must equal revm State's (Lean: account_fill_coherent over all interleavings of publish / commit; blind_publish_violates); cache-race (storage cases): 1-3 reader threads (cache-filling storage_ref through the worker view) against 1-3 ordered commits (destroy / create / empty-touch / update) of one account under random / PCT / sticky controller schedules and the directed F1 schedule (reader held between database fetch and cache insert while the account is destroyed); afterwards all reads must equal revm State's after the same commits, and the totally ordered hook-event trace (cache_read_begin, cache_fill_storage with the status the reader saw, cache_commit_begin, cache_set_status, cache_clear_storage, cache_write_slots) is replayed through the PROVEN Cache.step (one model state per slot): every event must be enabled, the values returned to readers and the values served at the end must equal the model's, and the model's served values its logical ones; e2e (bundle): " + E2E_RULE,
         "trusted_base": E2E_TRUST,
-        "modelled": ["ParallelStateView::db_basic (miss, database fetch, insert-if-absent) against commits of the account as Model/AccountFill.lean", "ParallelStateView::db_storage (hit / status read + fetch / guarded insert-if-absent with status re-check) and the order status-update -> storage.remove -> update_storage_slot of ParallelCacheState::apply_account_state as Model/Cache.lean, per (address, slot)", "the account/storage lifecycle (destroy, create, update) as in Model/Repr.lean (commitL)"],
-        "assumptions": ["DashMap shard guards give mutual exclusion between the guarded insert and storage.remove (one critical section = one model action)", "an account without nonce and code has no storage in the backing store (revm's own assumption when it marks such an account in-memory)", "the CacheAccountInfo status machine, the bundle builder (bundle.rs) and balance increments/drains are NOT modelled in Lean: they are decided by the history differential against revm's State only"],
-        "partial": ["status state machine, transitions, bundle/revert construction: differential only (no theorem)", "account fills are modelled abstractly (Model/AccountFill.lean: publish = insert-if-absent of the immutable database value, commit = overwrite) and tied by the account cases of cache-race (final state vs revm State, returned values vs committed prefixes), not by trace replay; code cache fills (insert-if-absent of immutable bytecode keyed by its hash) are not modelled"],
-        "explanation": "Theorems cache_coherent / cache_entry_current (for any number of readers, any history of destroy / create / update commits and any interleaving, whenever no commit is in progress the cache serves exactly what revm's State serves; nothing a reader left behind is stale) and f1_original_order_violates (the original order of finding F1 is refuted in the model); account_fill_coherent (any interleaving of account-filling reads with commits leaves the committed account in the cache) and blind_publish_violates. Findings F1 and F6 repaired (known_findings.json).",
+        "modelled": ["ParallelStateView::db_basic (miss, database fetch, insert-if-absent) against commits of the account as Model/AccountFill.lean", "ParallelStateView::db_storage (hit / status read + fetch / guarded insert-if-absent with status re-check) and the order status-update -> storage.remove -> update_storage_slot of ParallelCacheState::apply_account_state as Model/Cache.lean, per (address, slot)", "the account/storage lifecycle (destroy, create, update) as in Model/Repr.lean (commitL)", "the account-status machine, sequentially: CacheAccountInfo::{selfdestruct, newly_created, touch_empty_eip161, change, account_info_change}, the case split and slot-map handling of ParallelCacheState::apply_account_state, db_basic / db_storage / load_mut_cache_account, increment_balance_transitions and ParallelState::drain_balances as the machine G of Model/AcctState.lean; revm's CacheAccount, CacheState::apply_account_state, State::{load_cache_account, storage} and the default DatabaseCommitExt::{increment_balances, drain_balances} as the machine S; AccountStatus::{on_created, on_changed, on_selfdestructed, on_touched_empty_post_eip161, is_storage_known} transcribed for both"],
+        "assumptions": ["DashMap shard guards give mutual exclusion between the guarded insert and storage.remove (one critical section = one model action)", "an account without nonce and code has no storage in the backing store (revm's own assumption when it marks such an account in-memory)", "the bundle builder (bundle.rs: transitions -> BundleState, reverts, retention modes) is NOT modelled in Lean: it is decided by the history differential against revm's State only", "acct_machine_refines_revm is about histories on which grevm does not panic (a committed account is cached: execution loads every account it commits) and with non-zero increments (documented precondition; zero_increment_differs shows it is needed); the storage maps of a TransitionAccount (original values) are handed through by both implementations and not modelled"],
+        "partial": ["bundle/revert construction from the transitions: differential only (no theorem); the status machine and the per-operation transitions are a theorem (acct_machine_refines_revm) for sequential histories, its composition with the racing cache fills (cache_coherent, account_fill_coherent) is not one theorem", "account fills are modelled abstractly (Model/AccountFill.lean: publish = insert-if-absent of the immutable database value, commit = overwrite) and tied by the account cases of cache-race (final state vs revm State, returned values vs committed prefixes), not by trace replay; code cache fills (insert-if-absent of immutable bytecode keyed by its hash) are not modelled"],
+        "explanation": "Theorems cache_coherent / cache_entry_current (for any number of readers, any history of destroy / create / update commits and any interleaving, whenever no commit is in progress the cache serves exactly what revm's State serves; nothing a reader left behind is stale) and f1_original_order_violates (the original order of finding F1 is refuted in the model); account_fill_coherent (any interleaving of account-filling reads with commits leaves the committed account in the cache) and blind_publish_violates. acct_machine_refines_revm / step_refines / reads_equal_after_any_history: grevm's two-map account cache (info + status, slots apart, slots cacheable before the account is loaded) refines revm's CacheAccount for EVERY history of loads, slot reads, committed selfdestructs / creations / empty touches / changes, increments and drains: same TransitionAccount (info, status, previous info, previous status, storage-was-destroyed), same infos, same slot values, same drained amounts; storage_known_is_monotone, destroyed_account_serves_zero, zero_increment_differs. Findings F1 and F6 repaired (known_findings.json).",
     },
     "C11": {
         "lean_modules": ["Props.C11"],
